@@ -58,6 +58,17 @@ class C12(Plugin):
         for h in ("127.0.0.1", "[::1]", "example.test", "10.0.0.1"):
             for cert in ("good", "wrongname"):
                 cases.append(["yes", f"https://{h}/", cert, "none", "none", "none", "other.test"])
+        # the request method must not matter (CONNECT in particular: there is no proxy hop here)
+        nm = 60 if tier == "quick" else 1500
+        for _ in range(nm):
+            s = rng.choice(["https", "wss", "HTTPS", "http", "ws"])
+            h = rng.choice(self.HOSTS)
+            cases.append(["yes", f"{s}://{h}{rng.choice(self.PORTS)}/", rng.choice(["good", "wrongname", "untrusted"]),
+                          rng.choice(["none", "h2"]), rng.choice(["none", "h2"]), rng.choice(["none", "none", "close", "plaintext"]),
+                          "-", rng.choice(["CONNECT", "CONNECT", "POST", "OPTIONS"])])
+        for h in ("example.test", "[::1]"):
+            for s in ("https", "wss", "http"):
+                cases.append(["yes", f"{s}://{h}/", "good", "none", "none", "none", "-", "CONNECT"])
         # always: the headline cases
         for s in self.SCHEMES:
             for h in self.HOSTS:
@@ -89,6 +100,7 @@ class C12(Plugin):
         tls, uri, cert, salpn, calpn, fault = c[:6]
         hdr = c[6] if len(c) > 6 else "-"
         hdrv = None if hdr == "-" else hdr
+        conn = "true" if len(c) > 7 and c[7] == "CONNECT" else "false"
         hk = {"dns": "HDns", "ip": "HIp", "invalid": "HInvalid", "-": "HInvalid"}[o["kind"]]
         host = o["host"]
         stripped = (host or "").strip("[]").lower()
@@ -96,7 +108,7 @@ class C12(Plugin):
         A = {"none": "ANone", "h2": "AH2", "h11": "AH11"}
         F = {"none": "FNone", "close": "FClose", "plaintext": "FPlaintext", "truncate": "FTruncate", "transport": "FTransport"}
         C = {"good": "CGood", "wrongname": "CWrongName", "untrusted": "CUntrusted"}
-        case = (f"mkTls {'true' if tls == 'yes' else 'false'} {ostr(o['scheme'])} {ostr(host)} {ostr(hdrv)} {hk} {covered} "
+        case = (f"mkTls {'true' if tls == 'yes' else 'false'} {ostr(o['scheme'])} {ostr(host)} {ostr(hdrv)} {conn} {hk} {covered} "
                 f"{C[cert]} {A[salpn]} {A[calpn]} {F[fault]}")
         cls = o["cls"]
         if cls == "OKTLS":
@@ -125,6 +137,9 @@ class C12(Plugin):
     def shrinks(self, c):
         tls, uri, cert, salpn, calpn, fault = c[:6]
         hdr = c[6] if len(c) > 6 else "-"
+        if len(c) > 7:
+            yield c[:7]
+            return
         if hdr != "-":
             yield [tls, uri, cert, salpn, calpn, fault, "-"]
         if (salpn, calpn) != ("none", "none"):
@@ -145,10 +160,11 @@ class C12(Plugin):
         return None
 
     def histogram(self, cases, obss):
-        h = {"class": {}, "first": {}, "fault": {}, "cert": {}, "hostkind": {}, "hosthdr": {}}
+        h = {"class": {}, "first": {}, "fault": {}, "cert": {}, "hostkind": {}, "hosthdr": {}, "method": {}}
         for c, o in zip(cases, obss):
             for k, v in (("class", o["cls"]), ("first", o["first"]), ("fault", c[5]), ("cert", c[2]), ("hostkind", o["kind"]),
-                         ("hosthdr", "none" if len(c) < 7 or c[6] == "-" else "set")):
+                         ("hosthdr", "none" if len(c) < 7 or c[6] == "-" else "set"),
+                         ("method", c[7] if len(c) > 7 else "GET")):
                 h[k][v] = h[k].get(v, 0) + 1
         return h
 
